@@ -201,6 +201,18 @@ class SimInternalAdapter(BaseInternalRunAdapterDecorator, SnapshottableAdapter):
         for h in self._w.after_tick_hooks:
             h(self, tick)
 
+    async def wait_for_next_task(self, running, pending, timeout=None):
+        # observation only: the instant at which the control loop learns that a worker task has completed
+        res = await self._decorated.wait_for_next_task(running, pending, timeout)
+        c = res.completed
+        if c is not None:
+            for nt in list(running) + list(res.started):
+                if nt.task is c:
+                    if not nt.key.startswith("__pull__"):
+                        self._w.trace.log("task-done", run=self.run_id, key=nt.key)
+                    break
+        return res
+
     @property
     def init_state(self):
         return self._decorated.init_state  # type: ignore[attr-defined]
@@ -369,6 +381,9 @@ def gen_spec(tape, cfg: dict[str, Any]) -> dict:
                 sc.append(("failbase",))
             if tape.chance(cfg["p_stream"], 100, "stream?"):
                 sc.append(("stream", tape.rng_int(1, 2, "stream.n")))
+            if not sync and cfg.get("p_ticker") and tape.chance(cfg["p_ticker"], 100, "ticker?"):
+                # progress loop: write to the stream, yield to the loop, repeat (a body that stays runnable for several hops)
+                sc.append(("streamloop", tape.rng_int(2, 5, "ticker.n")))
             outs = list(produces[n])
             ret: Any = None
             if outs and not tape.chance(cfg["p_ret_none"], 100, "ret-none"):
@@ -561,7 +576,7 @@ class EngineWorld:
             f.update(etype=event.event_type, idle=event.idle, target=event.step_name)
         elif isinstance(event, WorkflowFailedEvent):
             f.update(step=event.step_name, attempts=event.attempts, elapsed=event.elapsed_seconds,
-                     exc=type(event.exception).__name__)
+                     exc=type(event.exception).__name__, msg=str(event.exception)[:60])
         elif isinstance(event, WorkflowTimedOutEvent):
             f.update(active=list(event.active_steps))
         u = uid_of(event)
@@ -632,6 +647,10 @@ class EngineWorld:
                     await self.work()
                 elif op == "sleep":
                     await asyncio.sleep(act[1])
+                elif op == "streamloop":
+                    for _ in range(act[1]):
+                        self._act(s, ctx, ev, rec, ("stream", 1))
+                        await asyncio.sleep(0)
                 elif op == "pset":
                     key = f"{s['name']}_{getattr(ev, 'path', '')}"
                     await ctx.store.set("d." + key, True)
@@ -677,7 +696,7 @@ class EngineWorld:
         try:
             script = s["scripts"].get(ev_desc(ev)) or s["scripts"].get("*") or [("ret", None)]
             for act in script:
-                if act[0] in ("work", "sleep", "wait", "pset", "pstop", "hset"):
+                if act[0] in ("work", "sleep", "wait", "pset", "pstop", "hset", "streamloop"):
                     continue
                 done, result = self._act(s, ctx, ev, rec, act)
                 if done is not None:
@@ -727,6 +746,17 @@ class EngineWorld:
                 self.fail_counts[key] = c + 1
                 self.fault("step-failure")
                 raise EV.EXCS[excs[c % len(excs)]](f"{name}/{in_uid}/f{c}")
+        elif op == "failsel":
+            # like failseq, but only deliveries whose fan-out index (last character of the path) is selected fail
+            _, excs, k, sel = act
+            idx = str(getattr(ev, "path", "") or "")[-1:]
+            if idx.isdigit() and int(idx) in sel:
+                key = (name, _hashable(in_uid))
+                c = self.fail_counts.get(key, 0)
+                if k < 0 or c < k:
+                    self.fail_counts[key] = c + 1
+                    self.fault("step-failure")
+                    raise EV.EXCS[excs[c % len(excs)]](f"{name}/{in_uid}/f{c}")
         elif op == "failpath":
             # deterministic under re-execution: depends only on the engine's attempt number
             _, exc, k = act
